@@ -53,12 +53,14 @@ def lemma(key):
     return lemmas()[key][0]
 
 
-def tasks(pid):
+def tasks(pid, tier='quick'):
     m = model()
     out = []
     for key, c in m.contracts.items():
-        if c.trusted or key.startswith(('protocol:', 're:')):
+        if c.trusted or key.startswith(('protocol:', 're:', 'stdlib:')):
             continue
+        if c.options.get('tier') == 'thorough' and tier != 'thorough':
+            continue      # expensive quantified proofs run in the thorough tier only
         if pid in _clause_props(c):
             out.append(('pyvc', key))
     for key, (fn, props) in lemmas().items():
@@ -69,7 +71,7 @@ def tasks(pid):
 
 def trusted_contracts(pid):
     m = model()
-    return sorted(k for k, c in m.contracts.items() if c.trusted or k.startswith(('protocol:', 're:')))
+    return sorted(k for k, c in m.contracts.items() if c.trusted or k.startswith(('protocol:', 're:', 'stdlib:')))
 
 
 GENERAL_ASSUMPTIONS = [
